@@ -1,3 +1,4 @@
 import Narwhal.Model.Id
 import Narwhal.Model.Acl
+import Narwhal.Model.Server
 import Narwhal.Theorems.C03
